@@ -192,6 +192,37 @@ pub fn run_one(ctx: &Ctx, seed: u64, hint: u8) -> FreeOut {
         committed.verif_rearm(targets);
         prover_slot = Some(committed);
         out.private_proofs += 1;
+        // the first layer's share of the end-to-end claim, checked where it arises: what this inner
+        // hands to the public layer already carries the real leaves' block, value and nullifiers
+        {
+            let iv = pis(&proof);
+            let what = format!("private batch {gi} over block hash {:?} with {} real leaf/leaves", block, leaves.len());
+            if iv[3..7] != block {
+                out.findings.push(("conserve:real-inner-block-reference".into(), format!("stand-in leaves ({what}): the private batch exposes block hash {:?}; a zero reference makes the public layer treat it as padding and drop its value", &iv[3..7])));
+            }
+            let want: u128 = leaves.iter().flat_map(|l| l.outs.iter().map(|(a, _)| *a as u128)).sum();
+            let got: u128 = (0..2 * n).map(|s| iv[8 + 5 * s] as u128).sum();
+            if got != want {
+                out.findings.push(("conserve:total-value".into(), format!("stand-in leaves ({what}): its exit slots sum to {got}, its real leaves pay out {want}")));
+            }
+            let mut want_n: Vec<[u64; 4]> = leaves.iter().map(|l| l.nullifier).collect();
+            for p in &dummy_pre {
+                let fe: Vec<F> = p.iter().map(|x| f(*x)).collect();
+                let o = h4(&h4(&fe));
+                want_n.push([o[0].to_canonical_u64(), o[1].to_canonical_u64(), o[2].to_canonical_u64(), o[3].to_canonical_u64()]);
+            }
+            let ns = 8 + 10 * n;
+            let mut got_n: Vec<[u64; 4]> = (0..n).map(|j| [iv[ns + 4 * j], iv[ns + 4 * j + 1], iv[ns + 4 * j + 2], iv[ns + 4 * j + 3]]).collect();
+            want_n.sort();
+            got_n.sort();
+            if got_n != want_n {
+                out.findings.push(("conserve:nullifiers".into(), format!("stand-in leaves ({what}): its nullifier region is not the real leaves' nullifiers plus the dummy-slot replacements")));
+            }
+        }
+        if !out.findings.is_empty() {
+            out.history = qpz_core::rng::hash_str(&format!("{:?}", out.findings));
+            return out;
+        }
         inners.push((proof, leaves, dummy_pre));
     }
     // ---- the aggregator: reals in order, possibly with the padding template supplied ahead of one ----
